@@ -105,6 +105,7 @@ class LockStep(Model):
                 ev.append(('unset', i, p))
             ev.append(('upds', i, 'PQ'))
             ev.append(('upds', i, 'ClassP'))
+            ev.append(('upds', i, 'PClass'))          # the refused key comes last: nothing before it may be written
         ev += [('upd_all', 'Q', '1'), ('upd_all', 'Class', 'Link')]
         for kind in ('has', 'connects'):
             ev.append(('upd_link', 'a', 'b', kind, 'LP', '1'))
@@ -112,6 +113,7 @@ class LockStep(Model):
             ev.append(('upds_link', 'a', 'b', kind, 'LPLQ'))
         ev.append(('upd_link', 'a', 'b', 'has', 'Class', 'connects'))
         ev.append(('upds_link', 'a', 'b', 'has', 'ClassLP'))
+        ev.append(('upds_link', 'a', 'b', 'has', 'LPClass'))
         ev.append(('upd_link', 'a', 'c', 'has', 'LP', '1'))
         ev.append(('unset_link', 'b', 'c', 'connects', 'LP'))
         for i in ('a', 'b'):
@@ -128,8 +130,9 @@ class LockStep(Model):
 
     @staticmethod
     def _multi(tag):
-        return {'PQ': {'P': '2', 'Q': '1'}, 'ClassP': {'Class': 'Link', 'P': '9'},
-                'LPLQ': {'LP': '2', 'LQ': '1'}, 'ClassLP': {'Class': 'connects', 'LP': '9'}}[tag]
+        return {'PQ': {'P': '2', 'Q': '1'}, 'ClassP': {'Class': 'Link', 'P': '9'}, 'PClass': {'P': '9', 'Class': 'Link'},
+                'LPLQ': {'LP': '2', 'LQ': '1'}, 'ClassLP': {'Class': 'connects', 'LP': '9'},
+                'LPClass': {'LP': '9', 'Class': 'connects'}}[tag]
 
     def _call(self, g, ev):
         k = ev[0]
